@@ -53,7 +53,7 @@ def sum (l : List Nat) : Nat := l.foldl (· + ·) 0
 `shader_data_offset`.  **C14's patch `C14-02` changes it to the constant 8**: when that patch is in
 the tree under test, replace the body by `8` (nothing else in the model or the proofs depends on
 the value — the blob reader is allocation-safe for every count). -/
-def vertexAdditionalLen (shaderDataOffset : Nat) : Nat := shaderDataOffset
+def vertexAdditionalLen (_shaderDataOffset : Nat) : Nat := 8   -- C14-02 is in the tree under test
 
 /-- `Shader` (imports `shader_data_offset`, `strings_offset`, `is_vertex`); the value is the number
 of name and blob bytes the shader keeps -/
